@@ -5,7 +5,7 @@ from hpl.ast.expressions import (HplExpression, HplVarReference, HplQuantifier, 
                                  HplUnaryOperator, HplBinaryOperator, HplFieldAccess, HplArrayAccess)
 from pyvc.contracts import contract, invariant, lemma, spec, aux, tag, unfold
 from specs.tree import mentions, binds, preorder, preorder_all, slots
-from specs.typing import uses_ok, NONE
+from specs.typing import uses_ok, NONE, with_dt
 import contracts.queries_c15  # noqa: F401  (iterate)
 import contracts.types_c20  # noqa: F401  (union)
 import contracts.typing_c03  # noqa: F401
@@ -188,6 +188,15 @@ def uses_pre(e: 'Expr', v: 'Str', t: 'DT') -> 'Bool':
     return uses_pre_ok(e, v, t)
 
 
+def _p_bit(e, t, a):
+    return binds(with_dt(e, t), a)
+
+
+@lemma(auto=('binds',), patterns=_p_bit)
+def binds_ignores_types(e: 'Expr', t: 'DT', a: 'Str') -> 'Bool':
+    return binds(with_dt(e, t), a) == binds(e, a)
+
+
 # ------------------------------------------------------------------ the constructor itself
 
 from pyvc.contracts import CONTRACTS, Clause  # noqa: E402
@@ -209,9 +218,26 @@ def _q_hint(quantifier, variable, domain, condition, data_type):
 CONTRACTS[_Q].hints.append(Clause('hint_preorder', _q_hint, 'aux', 'hint'))
 
 
+def _q_loop_hint(done, rest, v, t):
+    # the folds over the whole walk split into the part done and the part still to do
+    vn_append(done, rest, v)
+    qb_append(done, rest, v)
+    vo_append(done, rest, v, t)
+
+
 @invariant('hpl.ast.expressions.HplQuantifier._check_condition_is_bool', loop=0,
-           types={'used': 'Int', 'v': 'Str', 't': 'DT'})
+           types={'used': 'Int', 'v': 'Str', 't': 'DT'}, pre_hint=_q_loop_hint)
 def _q_cond_inv(done, used, v, t):
     return used >= 0 and ((used > 0) == any(var_named(n, v) for n in done)) \
         and not any(quant_binding(n, v) for n in done) \
         and all(var_ok(n, v, t) for n in done)
+
+
+def _q_dom_hint(done, rest, self):
+    vn_append(done, rest, self.variable)
+
+
+@invariant('hpl.ast.expressions.HplQuantifier._check_domain', loop=0, pre_hint=_q_dom_hint)
+def _q_dom_inv(done, self):
+    # no reference to the bound variable among the nodes of the domain walked so far
+    return not any(var_named(n, self.variable) for n in done)
